@@ -40,6 +40,21 @@ int main(int argc, char** argv) {
   add_prop(nm("p_eulerq", {CFG}), 4, 5e-3, 1e-6, [](auto const* x) { using T = TY(x); glm::qua<T, glm::defaultp> q; if (!unitq(x, q)) return T(-1);
     if (std::abs(T(2) * (q.x * q.z - q.w * q.y)) > T(0.98)) return T(-1);                 // gimbal-lock neighbourhood excluded
     return mdist(glm::mat3_cast(glm::qua<T, glm::defaultp>(glm::eulerAngles(q))), glm::mat3_cast(q)); });
+  // gtx/quaternion: rotation(orig, dest) turns orig onto dest; squad passes through q1 at 0 and q2 at 1; extractRealComponent restores w >= 0
+  add_prop(nm("p_rotation", {CFG}), 6, 5e-3, 1e-6, [](auto const* x) { using T = TY(x); auto u = ldv<3, T>(x), v = ldv<3, T>(x + 3);
+    if (!(glm::length(u) > T(0.3)) || !(glm::length(v) > T(0.3))) return T(-1);
+    auto un = glm::normalize(u), vn = glm::normalize(v); if (glm::dot(un, vn) < T(-0.999)) return T(-1);
+    auto r = glm::rotation(un, vn) * un; return std::max(std::max(std::abs(r.x - vn.x), std::abs(r.y - vn.y)), std::abs(r.z - vn.z)); });
+  add_prop(nm("p_squad_ends", {CFG}), 16, 2e-3, 1e-9, [](auto const* x) { using T = TY(x); glm::qua<T, glm::defaultp> q1, q2, s1, s2;
+    if (!unitq(x, q1) || !unitq(x + 4, q2) || !unitq(x + 8, s1) || !unitq(x + 12, s2)) return T(-1);
+    if (std::abs(glm::dot(q1, q2)) > T(0.999) || std::abs(glm::dot(s1, s2)) > T(0.999) || std::abs(glm::dot(q1, s1)) > T(0.999) || std::abs(glm::dot(q2, s2)) > T(0.999)) return T(-1);   // no (anti)parallel pair: mix's own domain
+    auto a = glm::squad(q1, q2, s1, s2, T(0)), b = glm::squad(q1, q2, s1, s2, T(1));
+    T d1 = std::max(std::max(std::abs(a.w - q1.w), std::abs(a.x - q1.x)), std::max(std::abs(a.y - q1.y), std::abs(a.z - q1.z)));
+    T d2 = std::max(std::max(std::abs(b.w - q2.w), std::abs(b.x - q2.x)), std::max(std::abs(b.y - q2.y), std::abs(b.z - q2.z)));
+    return std::max(d1, d2); });
+  add_prop(nm("p_extractreal", {CFG}), 4, 2e-3, 1e-7, [](auto const* x) { using T = TY(x); glm::qua<T, glm::defaultp> q; if (!unitq(x, q)) return T(-1);
+    if (std::abs(q.w) < T(0.05)) return T(-1);
+    return std::abs(std::abs(glm::extractRealComponent(q)) - std::abs(q.w)); });   // (glm returns the negative root, the convention of the MD5 model format; the sign is not part of C04)
   add_prop(nm("p_fromto", {CFG}), 6, 5e-3, 1e-6, [](auto const* x) { using T = TY(x); auto u = ldv<3, T>(x), v = ldv<3, T>(x + 3);
     if (!(glm::length(u) > T(0.3)) || !(glm::length(v) > T(0.3))) return T(-1);
     glm::qua<T, glm::defaultp> q(u, v); auto r = q * glm::normalize(u); auto w = glm::normalize(v);
